@@ -173,8 +173,30 @@ func dischargeAll(frs []*FuncResult, dir string, timeoutS, par int, filter func(
 		go func(j job) {
 			defer wg.Done()
 			defer func() { <-sem }()
+			solveOne(j.fr, j.o, j.id, dir, timeoutS, "")
+		}(j)
+	}
+	wg.Wait()
+	// second chance, one at a time: an obligation that ran out of time while all cores were busy is solved again alone
+	// (same time-out, same fall-backs), so that a loaded machine does not turn into an alarm
+	for _, j := range jobs {
+		if j.o.Cover || j.o.Result == "unsat" || j.o.Result == "sat" || j.o.Result == "error" {
+			continue
+		}
+		solveOne(j.fr, j.o, j.id, dir, timeoutS, "x")
+	}
+}
+
+func solveOne(fr *FuncResult, o *Obl, id int, dir string, timeoutS int, suffix string) {
+	type jobT struct {
+		fr *FuncResult
+		o  *Obl
+		id int
+	}
+	j := jobT{fr, o, id}
+	{
 			script := j.fr.Enc.script(j.o)
-			base := fmt.Sprintf("o%04d", j.id)
+			base := fmt.Sprintf("o%04d%s", j.id, suffix)
 			to := timeoutS
 			if j.o.Cover {
 				// vacuity: the quantifier-free part of the assumptions must be satisfiable (cheap, decisive when unsat);
@@ -246,10 +268,9 @@ func dischargeAll(frs []*FuncResult, dir string, timeoutS, par int, filter func(
 					j.o.Model = "candidate model from the quantifier-free relaxation:\n" + getModel(relaxed, dir, base+"r", 5, r2.backend)
 				}
 			}
-		}(j)
 	}
-	wg.Wait()
 }
+
 
 // relaxScript drops every quantified assertion (over-approximates the set of models).
 func relaxScript(script string) string {
